@@ -764,22 +764,48 @@ fn part_b_field<F: Model>(ctx: &mut Ctx) -> Vec<BigUint> {
     lat
 }
 
+/// Run one part under the panic monitor: in this driver every panic raised by arithmetic on field
+/// elements (in particular the crate's own `debug_assert!(self.0 < PRIME)` reducedness invariant in
+/// `PartialEq`/`Hash`, or an overflow trap) IS an observation of the property being broken.
+fn guarded<T: Default>(ctx: &mut Ctx, part: &str, f: impl FnOnce(&mut Ctx) -> T) -> T {
+    let mut out = None;
+    let r = catch(|| out = Some(f(ctx)));
+    match r {
+        Ok(()) => out.unwrap(),
+        Err(pi) => {
+            ctx.violation(format!("panic|{part}|{}", pi.class()),
+                "field arithmetic / comparison panicked (reducedness invariant or overflow trap fired)",
+                json!({"part": part, "panic": pi.message, "at": pi.location}));
+            T::default()
+        }
+    }
+}
+
 pub fn run(ctx: &mut Ctx) {
-    part_a(ctx);
-    let l = part_b_field::<FieldPrio2>(ctx);
+    guarded(ctx, "partA", part_a);
+    run_b(ctx);
+}
+
+fn run_b(ctx: &mut Ctx) {
+    let l = guarded(ctx, "partB-FieldPrio2", part_b_field::<FieldPrio2>);
+    run_b_rest(ctx, l);
+}
+
+#[allow(unused_variables)]
+fn run_b_rest(ctx: &mut Ctx, l: Vec<BigUint>) {
     let mut rng = ctx.rng("int32");
     if ctx.shard % 4 == 0 {
-        check_integer::<FieldPrio2>(ctx, &mut rng, &l, 20);
+        guarded(ctx, "integer-FieldPrio2", |ctx| check_integer::<FieldPrio2>(ctx, &mut rng, &l, 20));
     }
-    let l = part_b_field::<Field64>(ctx);
+    let l = guarded(ctx, "partB-Field64", part_b_field::<Field64>);
     if ctx.shard % 4 == 1 {
-        check_integer::<Field64>(ctx, &mut rng, &l, 32);
+        guarded(ctx, "integer-Field64", |ctx| check_integer::<Field64>(ctx, &mut rng, &l, 32));
     }
-    let l = part_b_field::<Field128>(ctx);
+    let l = guarded(ctx, "partB-Field128", part_b_field::<Field128>);
     if ctx.shard % 4 == 2 {
-        check_integer::<Field128>(ctx, &mut rng, &l, 66);
+        guarded(ctx, "integer-Field128", |ctx| check_integer::<Field128>(ctx, &mut rng, &l, 66));
     }
-    let _ = part_b_field::<Field255>(ctx);
+    let _ = guarded(ctx, "partB-Field255", part_b_field::<Field255>);
     // Field255 <-> u64 conversions
     if ctx.shard % 4 == 3 {
         for v in [0u64, 1, 2, 18, 19, 20, u64::MAX, u64::MAX - 1, 1 << 63, rng.u64(), rng.u64()] {
